@@ -2,6 +2,7 @@
 # usage: tools/run_seeded.sh [ids...]   -- applies each seeded mutant to /repo, runs the quick check of the
 # property it breaks, undoes it straight afterwards.  Results appended to /tmp/seeded_results.txt
 cd /verif
+export VERIF_EVIDENCE_DIR=/tmp/evidence_scratch
 ids="$@"
 if [ -z "$ids" ]; then ids=$(ls seeded | grep '^C'); fi
 for id in $ids; do
